@@ -115,6 +115,8 @@ package h2
 //@ ensures relayWF(r) && quiescent(r)
 //@ ensures r.connectionWindowSize + sentAll(r.output) == old(r.connectionWindowSize) + old(sentAll(r.output))
 //@ ensures sentAll(r.output) >= old(sentAll(r.output))
+// (no stream's queue is ever taken out of the registry: a frame that is queued stays reachable for the emit scans - none is stranded)
+//@ ensures forall k uint32 {r.outputBuffers[k]} :: old(k in r.outputBuffers) ==> (k in r.outputBuffers) && r.outputBuffers[k] == old(r.outputBuffers[k])
 //@ ensures sentAll(r.output) > old(sentAll(r.output)) ==> r.connectionWindowSize >= 0
 
 // WINDOW_UPDATE from the receiver: the addressed window grows by exactly the
@@ -201,6 +203,7 @@ package h2
 //@ property C09 C10 C12
 //@ requires r != nil && relayWF(r) && quiescent(r) && frameSizeOK(r) && len(data) < 4294967296
 //@ modifies r.outputBuffers[*], outputBuffer.windowSize, r.connectionWindowSize, qlo, qhi, qelem, nsent(r.output), outseq, sentAll(r.output), elems(byte)
+//@ ensures forall k uint32 {r.outputBuffers[k]} :: old(k in r.outputBuffers) ==> (k in r.outputBuffers) && r.outputBuffers[k] == old(r.outputBuffers[k])
 //@ ensures relayWF(r) && quiescent(r)
 //@ ensures r.connectionWindowSize + sentAll(r.output) == old(r.connectionWindowSize) + old(sentAll(r.output))
 //@ ensures sentAll(r.output) > old(sentAll(r.output)) ==> r.connectionWindowSize >= 0
@@ -231,6 +234,7 @@ package h2
 //@ property C09 C10 C12
 //@ requires r != nil && relayWF(r) && quiescent(r) && frameSizeOK(r) && r.encoder != nil && r.enableDebugLogs != nil
 //@ modifies pkg(hpack), pkg(bytes), elems(byte), sbStr, elems([]byte), r.outputBuffers[*], outputBuffer.windowSize, r.connectionWindowSize, qlo, qhi, qelem, nsent(r.output), outseq, sentAll(r.output), lastEnq(r)
+//@ ensures forall k uint32 {r.outputBuffers[k]} :: old(k in r.outputBuffers) ==> (k in r.outputBuffers) && r.outputBuffers[k] == old(r.outputBuffers[k])
 //@ ensures relayWF(r) && quiescent(r)
 //@ ensures r.connectionWindowSize + sentAll(r.output) == old(r.connectionWindowSize) + old(sentAll(r.output))
 //@ ensures err == nil ==> lastEnq(r) is *queuedHeaderFrame && lastEnq(r).(*queuedHeaderFrame).streamID == id && lastEnq(r).(*queuedHeaderFrame).endStream == streamEnded && lastEnq(r).(*queuedHeaderFrame).priority == priority
@@ -241,6 +245,7 @@ package h2
 //@ property C09 C10 C12
 //@ requires r != nil && relayWF(r) && quiescent(r) && frameSizeOK(r) && r.encoder != nil && r.enableDebugLogs != nil
 //@ modifies pkg(hpack), pkg(bytes), elems(byte), sbStr, elems([]byte), r.outputBuffers[*], outputBuffer.windowSize, r.connectionWindowSize, qlo, qhi, qelem, nsent(r.output), outseq, sentAll(r.output), lastEnq(r)
+//@ ensures forall k uint32 {r.outputBuffers[k]} :: old(k in r.outputBuffers) ==> (k in r.outputBuffers) && r.outputBuffers[k] == old(r.outputBuffers[k])
 //@ ensures relayWF(r) && quiescent(r)
 //@ ensures err == nil ==> lastEnq(r) is *queuedPushPromiseFrame && lastEnq(r).(*queuedPushPromiseFrame).streamID == id && lastEnq(r).(*queuedPushPromiseFrame).promiseID == promiseID
 //@ ensures err == nil ==> len(lastEnq(r).(*queuedPushPromiseFrame).chunks) >= 1 && len(lastEnq(r).(*queuedPushPromiseFrame).chunks[0]) + 4 <= r.maxFrameSize
@@ -250,6 +255,7 @@ package h2
 //@ property C10 C12
 //@ requires r != nil && relayWF(r) && quiescent(r)
 //@ modifies r.outputBuffers[*], outputBuffer.windowSize, r.connectionWindowSize, qlo, qhi, qelem, nsent(r.output), outseq, sentAll(r.output), lastEnq(r)
+//@ ensures forall k uint32 {r.outputBuffers[k]} :: old(k in r.outputBuffers) ==> (k in r.outputBuffers) && r.outputBuffers[k] == old(r.outputBuffers[k])
 //@ ensures relayWF(r) && quiescent(r)
 //@ ensures lastEnq(r) is *queuedPriorityFrame && lastEnq(r).(*queuedPriorityFrame).streamID == id && lastEnq(r).(*queuedPriorityFrame).priority == priority
 
@@ -257,6 +263,7 @@ package h2
 //@ property C10 C12
 //@ requires r != nil && relayWF(r) && quiescent(r)
 //@ modifies r.outputBuffers[*], outputBuffer.windowSize, r.connectionWindowSize, qlo, qhi, qelem, nsent(r.output), outseq, sentAll(r.output), lastEnq(r)
+//@ ensures forall k uint32 {r.outputBuffers[k]} :: old(k in r.outputBuffers) ==> (k in r.outputBuffers) && r.outputBuffers[k] == old(r.outputBuffers[k])
 //@ ensures relayWF(r) && quiescent(r)
 //@ ensures lastEnq(r) is *queuedRSTStreamFrame && lastEnq(r).(*queuedRSTStreamFrame).streamID == id && lastEnq(r).(*queuedRSTStreamFrame).errCode == errCode
 
